@@ -126,3 +126,18 @@ def pb_payload_faults(enc):
         for q in range(st, st + l):
             m[q] = 0xc0 if (q - st) % 2 == 0 else 0x80
         yield ("corrupt-payload", [st, l, "overlong-utf8"], m)
+
+
+def pb_key_faults(enc):
+    """Fault action BadKey / BadVarint on a valid protobuf encoding: a record with field number 0, keys with the reserved wire
+    types 6 and 7, a ten-byte varint whose last byte exceeds 1 (does not fit 64 bits) and an unterminated one, each in front of
+    the message and in place of every length prefix."""
+    over = [0xff] * 9 + [0x7f]
+    unterminated = [0xff] * 11
+    for name, pre in (("field-number-0", [0x00, 0x01]), ("wire-type-6", [0x0e, 0x01]), ("wire-type-7", [0x0f]),
+                      ("varint-over-64-bits-key", over + [0x00]), ("unterminated-varint-key", unterminated)):
+        yield ("bad-key", [0, name], pre + list(enc))
+        yield ("bad-key", [len(enc), name], list(enc) + pre)
+    for mk in pb_len_marks(enc) or []:
+        yield ("bad-varint", [mk["pos"], "over-64-bits"], enc[:mk["pos"]] + over + enc[mk["pos"] + mk["w"]:])
+        yield ("bad-varint", [mk["pos"], "unterminated"], enc[:mk["pos"]] + unterminated + enc[mk["pos"] + mk["w"]:])
